@@ -180,14 +180,12 @@ theorem cap_exec_le (c : Cap) (os : List CapOp) (hp : ∀ o ∈ os, Cap.CapOp.pu
     rw [hs.2] at this
     exact this
 
-theorem simple_disabled_loop (attempts m i : Nat) (h : i + m = attempts) :
-    submitLoop.go attempts i (List.replicate m (.simple false true)) m = (m, false) := by
-  induction m generalizing i with
-  | zero => simp [submitLoop.go]
-  | succ m ih =>
-    have hi : i < attempts := by omega
-    simp only [List.replicate_succ, submitLoop.go, loopCond, hi, decide_true, if_true, BKind.doF, simpleRuns,
-      simpleAttempted, loopBreaksOnWorked]
-    rw [ih (i + 1) (by omega)]
-    simp
-    omega
+/-- every status of a SimpleBreaker is faithful since `Do` reports `Closed || Disabled`, which is when it runs `f` -/
+theorem simple_faithful (closed disabled : Bool) : (BKind.simple closed disabled).faithful = true := by
+  cases closed <;> cases disabled <;> decide
+
+/-- a disabled, open SimpleBreaker: the first attempt runs the function and reports it, the loop ends -/
+theorem simple_disabled_once (attempts : Nat) (h : 0 < attempts) :
+    submitLoop attempts (List.replicate attempts (.simple false true)) = (1, true) := by
+  obtain ⟨m, rfl⟩ : ∃ m, attempts = m + 1 := ⟨attempts - 1, by omega⟩
+  simp [submitLoop, List.replicate_succ, submitLoop.go, loopCond, BKind.doF, simpleRuns, simpleAttempted, loopBreaksOnWorked]
